@@ -99,6 +99,28 @@ def search(npts: int, seed: int, rep: Report) -> List[Dict[str, Any]]:
                 break
             rep.nontrivial.add((name, n, fhex(x[0])))
         rep.extra.setdefault("worst_rel_discrepancy", {})[name] = worst
+    # structured points the uniform sampling never hits: Griewank where one of the cosines vanishes (to rounding) —
+    # the function is smooth there and the i-th partial derivative needs the product of the OTHER cosines
+    f, g = lbfgsb.griewank, lbfgsb.griewank_grad
+    for n in range(1, 7):
+        for i in range(n):
+            for k in (-2, -1, 0, 1):
+                x = rng.uniform(-5, 5, n)
+                den = np.sqrt(np.arange(1, n + 1))
+                # keep the other cosines away from zero so that the numerical derivative is well conditioned
+                for j in range(n):
+                    while abs(np.cos(x[j] / den[j])) < 0.2:
+                        x[j] = rng.uniform(-5, 5)
+                x[i] = (np.pi / 2 + k * np.pi) * den[i]
+                rep.evaluations += 1
+                rep.count("fn=griewank@cos-zero")
+                gx = np.asarray(g(x.copy()))
+                num = np.array([richardson(f, x, kk) for kk in range(n)])
+                err = float(np.max(np.abs(num - gx))) / max(1.0, float(np.max(np.abs(num))))
+                if not np.isfinite(gx).all() or err > 1e-6:
+                    bad.append({"what": f"griewank_grad disagrees with a high-order numerical derivative of griewank where a cosine vanishes (rel. {err:.2e})",
+                                "case": {"fn": "griewank", "x": [float(v) for v in x], "grad": [float(v) for v in gx], "numerical": [float(v) for v in num]}})
+                    return bad
     return bad
 
 
